@@ -453,7 +453,18 @@ def r18g(F):
 			e = ex.of_operand(rv[4][0])
 			seen.append(leaf_key(e)[:50])
 			calls = expr_leaves(e)['calls']
-			okv = any(c.endswith('Duration::from_secs') for c in calls) and not any(c.endswith(('from_millis', 'from_nanos', 'from_micros', 'from_secs_f64', 'from_secs_f32', 'Duration::new')) for c in calls)
+			def whole(x):
+				while x[0] in ('ref', 'deref', 'cast'):
+					x = x[1]
+				if x[0] == 'call' and (x[1] or '').endswith('Duration::from_secs'):
+					return True
+				if x[0] == 'call' and (x[1] or '').endswith('Duration::new') and len(x[2]) == 2:
+					n = x[2][1]
+					while n[0] in ('ref', 'deref', 'cast'):
+						n = n[1]
+					return n[0] == 'const' and n[1] == 0
+				return False
+			okv = whole(e)
 		out.append(Result('18.g', okv, ('ok:' if okv else 'precision:') + 'whole-seconds@' + adt, '%s is built from Duration::from_secs(..) (found %s)%s' % (adt, seen, '' if okv else ' - a sub-second part cannot be encoded: the emitted string parses back to a different invoice'), len(seen), where=F.where(ctor)))
 	return out
 
